@@ -64,13 +64,13 @@ def main():
             "technique": tech,
         })
     ids = [f"C{i:02d}" for i in range(1, 20)]
-    hooks_commits = []
+    hooks_commits = ["562e966"]
     m = {
         "version": 1,
         "setup_cmd": "./check buildall && ./check selftest",
         "hooks": {
             "guard": "purl_verif",
-            "enable": "RUSTFLAGS=\"--cfg purl_verif\" with a separate CARGO_TARGET_DIR (done by ./check for the checks that need it); a rustc cfg, not a cargo feature",
+            "enable": "RUSTFLAGS=\"--cfg purl_verif\" with CARGO_TARGET_DIR=/verif/target/on (done by ./check C12, the only check that needs the hook: scripted hasher for Checksum's map); a rustc cfg, not a cargo feature",
             "baseline_off_cmd": "cd /repo && cargo test --workspace --no-fail-fast --offline",
             "source_commits": hooks_commits,
             "add_only": True,
